@@ -55,6 +55,12 @@ def _installed_locales():
 
 LANGS = _installed_locales()
 
+# (variable, value) pairs switched on by the bits of perturbation['env_extra']
+ENV_EXTRA = [('COLUMNS', '37'), ('LINES', '11'), ('PYTHONUTF8', '1'), ('PYTHONIOENCODING', 'latin-1'),
+             ('SOURCE_DATE_EPOCH', '86400'), ('LC_NUMERIC', 'de_DE.UTF-8'), ('LC_COLLATE', 'tr_TR.UTF-8'),
+             ('TERM', 'dumb'), ('NO_COLOR', '1'), ('PYTHONOPTIMIZE', '1'), ('PYTHONUNBUFFERED', '1'),
+             ('PYTHONWARNINGS', 'ignore'), ('SHELL', '/bin/false'), ('PWD', '/nonexistent/pwd')]
+
 
 def perturbation(seed, index):
     rng = random.Random('%d/%d' % (seed, index))
@@ -72,6 +78,12 @@ def perturbation(seed, index):
         # the same user compiled a DIFFERENT source earlier with the same command line, in the same directory, home
         # and temporary directory (a per-user or per-directory cache, a leftover work file, would carry over)
         'prior_other': index != 0 and rng.random() < 0.35,
+        # further process environment a program can see without asking for it: terminal geometry, encoding and
+        # collation defaults, reproducible-build clock, where stdout / stderr go, whether the input directory is
+        # reached through a symbolic link
+        'env_extra': 0 if index == 0 else rng.randrange(0, 1 << len(ENV_EXTRA)),
+        'stdio': 'pipe' if index == 0 else rng.choice(['pipe', 'file', 'null', 'tty']),
+        'input_link': True if index == 0 else rng.random() < 0.6,
     }
 
 
@@ -87,9 +99,15 @@ def compile_once(repo, src, workdir, cfg, pert, _prior=False):
         # history fault: first compile the decoy source (same names, other contents) here, then remove its outputs
         compile_once(repo, src + '-decoy', workdir, cfg, dict(pert, stale_outputs=False), _prior=True)
         shutil.rmtree(os.path.join(cwd, 'out'), ignore_errors=True)
-        os.unlink(os.path.join(cwd, 'in'))
-    if not os.path.exists(os.path.join(cwd, 'in')):
-        os.symlink(src, os.path.join(cwd, 'in'))
+        if os.path.islink(os.path.join(cwd, 'in')):
+            os.unlink(os.path.join(cwd, 'in'))
+        else:
+            shutil.rmtree(os.path.join(cwd, 'in'))
+    if not os.path.lexists(os.path.join(cwd, 'in')):
+        if pert.get('input_link', True):
+            os.symlink(src, os.path.join(cwd, 'in'))
+        else:
+            shutil.copytree(src, os.path.join(cwd, 'in'))
     out = os.path.join(cwd, 'out')
     os.makedirs(out, exist_ok=True)
     if pert.get('stale_outputs'):
@@ -119,6 +137,14 @@ def compile_once(repo, src, workdir, cfg, pert, _prior=False):
         env.update({'USER': 'builder%d' % hu, 'LOGNAME': 'builder%d' % hu, 'HOSTNAME': 'buildhost%d' % hu})
         if hu == 3:
             env['XDG_CACHE_HOME'] = os.path.join(workdir, 'xdgcache')
+    have_locales = set(LANGS)
+    for bit, (k, v) in enumerate(ENV_EXTRA):
+        if pert.get('env_extra', 0) >> bit & 1:
+            if k.startswith('LC_') and v not in have_locales:
+                continue
+            if k.startswith('LC_'):
+                env.pop('LC_ALL', None)   # LC_ALL would override the single category
+            env[k] = v
     if pert['shim']:
         env['PYTHONPATH'] = HERE
         env['DETCOMPILE_SEED'] = str(pert['shim_seed'])
@@ -126,13 +152,44 @@ def compile_once(repo, src, workdir, cfg, pert, _prior=False):
            '--tz_version', '2020d', '--action', actions, '--language', language, '--scope', scope,
            '--start_year', str(start), '--until_year', str(until)] + extra
     old = os.umask(pert['umask'])
+    stdio = pert.get('stdio', 'pipe')
+    errtext = ''
     try:
-        p = subprocess.run(cmd, cwd=cwd, env=env, stdout=subprocess.PIPE, stderr=subprocess.PIPE, text=True,
-                           timeout=600, errors='replace')
+        if stdio == 'tty':
+            import pty
+            master, slave = pty.openpty()
+            try:
+                proc = subprocess.Popen(cmd, cwd=cwd, env=env, stdin=slave, stdout=slave, stderr=slave, close_fds=True)
+                os.close(slave)
+                chunks = []
+                while True:
+                    try:
+                        b = os.read(master, 65536)
+                    except OSError:
+                        break
+                    if not b:
+                        break
+                    chunks.append(b)
+                rc = proc.wait(timeout=600)
+                errtext = b''.join(chunks).decode('utf-8', 'replace')
+            finally:
+                os.close(master)
+        elif stdio == 'file':
+            with open(os.path.join(workdir, 'stdout.txt'), 'w') as fo, open(os.path.join(workdir, 'stderr.txt'), 'w') as fe:
+                rc = subprocess.run(cmd, cwd=cwd, env=env, stdin=subprocess.DEVNULL, stdout=fo, stderr=fe, timeout=600).returncode
+            with open(os.path.join(workdir, 'stderr.txt'), errors='replace') as fe:
+                errtext = fe.read()
+        elif stdio == 'null':
+            rc = subprocess.run(cmd, cwd=cwd, env=env, stdin=subprocess.DEVNULL, stdout=subprocess.DEVNULL,
+                                stderr=subprocess.DEVNULL, timeout=600).returncode
+        else:
+            p = subprocess.run(cmd, cwd=cwd, env=env, stdout=subprocess.PIPE, stderr=subprocess.PIPE, text=True,
+                               timeout=600, errors='replace')
+            rc, errtext = p.returncode, p.stderr
     finally:
         os.umask(old)
-    if p.returncode != 0:
-        raise K.HarnessError('tzcompiler failed (cfg %s, perturbation %s):\n%s' % (cfg, pert, p.stderr[-2000:]))
+    if rc != 0:
+        raise K.HarnessError('tzcompiler failed (cfg %s, perturbation %s):\n%s' % (cfg, pert, errtext[-2000:]))
     files = {}
     stale_marker = b'stale output of an earlier compilation'
     for f in sorted(os.listdir(out)):
@@ -205,7 +262,7 @@ def run(prop, tier, verif_seed):
     exit_code = 0
     stats = {'compilations': 0, 'files_compared': 0, 'bytes_compared': 0, 'reason_lines_canonicalised': 0,
              'raw_byte_differences_excused': 0}
-    fault_counts = {'prior_compile_of_other_source': 0, 'home_user_host_changed': 0, 'stale_outputs_present': 0, 'hashseed_changed': 0, 'clock_jumping': 0, 'listing_shuffled': 0, 'tz_changed': 0,
+    fault_counts = {'env_extra_variables': 0, 'stdio_not_a_pipe': 0, 'input_dir_not_a_symlink': 0, 'prior_compile_of_other_source': 0, 'home_user_host_changed': 0, 'stale_outputs_present': 0, 'hashseed_changed': 0, 'clock_jumping': 0, 'listing_shuffled': 0, 'tz_changed': 0,
                     'locale_changed': 0, 'cwd_depth_changed': 0, 'umask_changed': 0}
     samples = []
     distinct = set()
@@ -235,6 +292,12 @@ def run(prop, tier, verif_seed):
                 fault_counts['home_user_host_changed'] += 1
             if p.get('prior_other'):
                 fault_counts['prior_compile_of_other_source'] += 1
+            if p.get('env_extra'):
+                fault_counts['env_extra_variables'] += 1
+            if p.get('stdio', 'pipe') != 'pipe':
+                fault_counts['stdio_not_a_pipe'] += 1
+            if not p.get('input_link', True):
+                fault_counts['input_dir_not_a_symlink'] += 1
             if p['hashseed'] != 0:
                 fault_counts['hashseed_changed'] += 1
             if p['shim']:
@@ -326,7 +389,7 @@ def minimise_perturbation(repo, src, root, cfg, ref, pert, base):
     outputs still differ."""
     cur = dict(pert)
     n = [0]
-    for dim in ('shim', 'stale_outputs', 'prior_other', 'home_user', 'tz', 'lang', 'umask', 'cwd_depth', 'hashseed'):
+    for dim in ('shim', 'stale_outputs', 'prior_other', 'env_extra', 'stdio', 'input_link', 'home_user', 'tz', 'lang', 'umask', 'cwd_depth', 'hashseed'):
         trial = dict(cur)
         trial[dim] = base[dim]
         if trial == cur:
